@@ -7,8 +7,8 @@ KINDS = ["bdd", "bcdd", "zbdd"]
 
 
 def c07(ck, tier, seed):
-    ck.cov["rule"] = ("V: free-running runs: 2..4 application threads issue 40-60 operations each (connectives, not, ite, substitute with a substitution "
-                      "object of the thread's own, ZBDD family operations, handle clone, drops of handles created by any thread) on one manager with 2..16 pool workers and "
+    ck.cov["rule"] = ("V: free-running runs: 2..4 application threads issue 40-60 operations each (connectives, not, ite, quantification and apply-and-quantify over a variable, substitute with a "
+                      "substitution object of the thread's own, ZBDD family operations, handle clone, drops of handles created by any thread) on one manager with 2..16 pool workers and "
                       "split depth 0/1/3/8, a collector thread calls gc() every 50-450 microseconds; per-thread events are merged by a "
                       "stamp taken under the handle-table lock at publication (respects data dependencies); TLC validates every "
                       "result against the sequential specification (conc.sem, conc.canon), the ids of substitution objects created by all "
